@@ -31,6 +31,8 @@ CHECKS = {
          "Hundreds to thousands of sessions in which the peer sends every message kind before, during and around a failing verification; zero-contact oracle evaluated while Verified() is false.", "3/C13"),
  "C14": ("exploration", "runtime monitoring: ping/pong barrier after generated well-formed message sequences against a real BitcoinNode over loopback; close-cause classifier; race detector",
          "Seeded sequences over the full command set incl. made-up commands, classic and extended framing, payloads up to several MB, every block/tx state; a pong must follow each sequence.", "3/C14"),
+ "C15": ("exploration", "runtime monitoring with process supervision: hostile byte streams against real BitcoinNodes inside journalled, memory-budgeted worker processes; liveness of the worker, of a canary connection and of Run; second pass under the race detector",
+         "Each case delivers one generated hostile input (random, mutated valid messages, hostile declared lengths and counts, extended headers up to 2^64-1, every bits exponent, handshake floods) at one of three session stages; a dead worker is attributed to the journalled case and re-run alone.", "3/C15"),
  "C17": ("exploration", "runtime monitoring: reference model with invalid marks vs repository after every mark/unmark/submit/Save/Load",
          "Marks on best chain at several depths, side branches, unseen and unknown hashes, repeated marks, unmark+resubmit, reload.", "3/C17"),
  "C18": ("fault_enumeration", "fault injection: every single-element corruption of each valid merkle proof (built by a reference implementation) must be rejected; valid proofs must report the model's height and best-chain flag",
